@@ -154,7 +154,7 @@ CLAIMS["C09"] = _b(
     "counter (channel_listener_gauges_all_histories) — using the translator fact that create_channel counts before replying, which is "
     "where the defect fixed in 2be3d48 breaks the proof; run-loop exit condition and shutdown events (finished_iff, "
     "broker_shutdown_queues_all, idle_shutdown_sets_flag); the turn that handles a broker shutdown ends, from any state, with no "
-    "connection left, nothing deferred and the exit condition of Broker::run true (broker_shutdown_completes); gauges for connections/objects/services (registry_gauges_all_histories); in "
+    "connection left, nothing deferred and the exit condition of Broker::run true (broker_shutdown_completes); a connection removed with notice whose task still takes messages is sent Shutdown first (removal_with_notice_sends_shutdown_first); gauges for connections/objects/services (registry_gauges_all_histories); in "
     "every reachable state a call whose caller is no longer connected is marked aborted, so nothing is delivered for it any more "
     "(calls_of_a_removed_connection_are_ended, no_connections_no_live_call; cross-reference invariant of C02); for ALL histories, once "
     "no connection is left all four registry maps, the channel map and the listener map are empty "
